@@ -27,6 +27,9 @@ type family struct {
 	Core func(ss *slotSet, s slot, choice int) bool
 	// Restarts: additionally run every history with one restart after each of these heights (0 = none)
 	Restarts []int64
+	// SumOnly: the family contains contracts that forward value, which the simple (non-EVM) model does not follow:
+	// only model-independent invariants (conservation of the total, no wrap-around) are judged, per-account findings are dropped.
+	SumOnly bool
 }
 
 type mcase struct {
@@ -74,15 +77,42 @@ func (c *modelCheck) Prepare(tier string, seed int64) error {
 	c.cases = nil
 	for fi, f := range c.families {
 		ss := c.slots[fi]
-		maxD := f.MaxD
-		if tier == "thorough" && f.MaxDTh > 0 {
-			maxD = f.MaxDTh
+		coreP := func(s, ch int) bool { return f.Core == nil || f.Core(ss, ss.slots[s], ch) }
+		var sets [][]dev
+		var lv []int
+		if tier != "thorough" {
+			var core func(s, ch int) bool
+			if f.Core != nil {
+				core = coreP
+			}
+			sets, lv = enumDevs(ss.sizes(), f.MaxD, 2, core)
+		} else {
+			maxD := f.MaxD
+			if f.MaxDTh > 0 {
+				maxD = f.MaxDTh
+			}
+			d2 := maxD
+			if d2 > 2 {
+				d2 = 2
+			}
+			// levels <= 2 over the FULL menu unless that exceeds the budget a thorough run can finish
+			sets, lv = enumDevs(ss.sizes(), d2, 2, nil)
+			if len(sets) > 250000 {
+				sets, lv = enumDevs(ss.sizes(), d2, 2, coreP)
+			}
+			if maxD >= 3 {
+				// level 3 over the core sub-menu only (every position restricted)
+				s3, l3 := enumDevs(ss.sizes(), 3, 1, coreP)
+				n3 := 0
+				for i := range s3 {
+					if l3[i] == 3 && n3 < 300000 {
+						sets = append(sets, s3[i])
+						lv = append(lv, 3)
+						n3++
+					}
+				}
+			}
 		}
-		var core func(s, ch int) bool
-		if f.Core != nil && tier != "thorough" {
-			core = func(s, ch int) bool { return f.Core(ss, ss.slots[s], ch) }
-		}
-		sets, lv := enumDevs(ss.sizes(), maxD, 2, core)
 		for i := range sets {
 			c.cases = append(c.cases, mcase{Fam: fi, Devs: sets[i], Lv: lv[i]})
 			for _, r := range f.Restarts {
@@ -160,6 +190,10 @@ func (c *modelCheck) RunDesc(desc json.RawMessage) engine.Result {
 	}
 	foreign := 0
 	for _, f := range findings {
+		if c.families[cs.Fam].SumOnly && f.Kind != "value-not-conserved" && f.Kind != "balance-wrapped" {
+			res.Count("per-account_findings_dropped_in_sum-only_family", 1)
+			continue
+		}
 		if !c.wants(f) {
 			foreign++
 			res.Count("findings_owned_by_other_properties:"+f.Prop, 1)
